@@ -4,6 +4,7 @@ package c14
 import (
 	"encoding/json"
 	"fmt"
+	"strconv"
 	"strings"
 	"testing"
 
@@ -399,9 +400,37 @@ func TestCheck(t *testing.T) {
 		})
 	})
 
+	// Phase C3: a pair of texts comes back after N other distinct texts went through the helpers.
+	r.Phase("C3: a helper pair, then N distinct other texts through the helpers (N = 1..200000 on a ladder around powers of two), then the same pair again", func() {
+		r.Serial(func(w *vkit.W) {
+			filler := 0
+			for li, n := range []int{1, 2, 3, 31, 32, 33, 63, 64, 65, 127, 128, 129, 255, 256, 257, 511, 512, 513, 1023, 1024, 1025, 2047, 2048, 2049, 4096, 8192, 65536, 200000} {
+				a, b := "9."+strconv.Itoa(li)+".0", "5."+strconv.Itoa(n)+".0-rc.1"
+				judge(Case{Kind: "helper", TA: vkit.B(a), TB: vkit.B(b)}, w)
+				judge(Case{Kind: "helper", TA: vkit.B("v" + b), TB: vkit.B("v" + a)}, w)
+				for k := 0; k < n; k++ {
+					filler++
+					t := "1." + strconv.Itoa(filler%89) + "." + strconv.Itoa(filler)
+					switch filler % 3 {
+					case 0:
+						_, _ = sem.CompareVersion[string, string](t, "1.0.0")
+					case 1:
+						_, _ = sem.LatestTag("v"+t, []byte("v0.0.1"))
+					default:
+						_, _ = sem.Compare([]byte(t), "v2.0.0")
+					}
+				}
+				judge(Case{Kind: "helper", TA: vkit.B(a), TB: vkit.B(b)}, w)
+				judge(Case{Kind: "helper", TA: vkit.B("v" + b), TB: vkit.B("v" + a)}, w)
+				w.EvalRandom(vkit.Hash64("C3", a, b), true)
+			}
+		})
+	})
+
 	// helper texts: valid versions, tag forms, one-edit mutations, overflow, over-long
 	r.Phase("C: string helpers on a pool of valid/invalid texts (all ordered pairs)", func() {
-		pool := []string{"", "v", "1.2.3", "v1.2.3", "1.2.3-a01", "1.2.3-a1", "v1.2.3-rc.1+b", "1.2.3+b", "1.2", "1.2.3.4", "01.2.3", "1.2.3-01", "1.2.3-", "1.2.3+", "vv1.2.3", "V1.2.3", "1.2.3 ", "1.2.3-é",
+		pool := []string{"1.0.0+exp-sha.5114f85", "1.0.0+21AF26D3----117B344092BD", "v1.0.0+a-b", "1.0.0-rc+a-b", "1.0.0+-", "1.0.0-x-y+-z-", "v1.0.0--+--",
+			"", "v", "1.2.3", "v1.2.3", "1.2.3-a01", "1.2.3-a1", "v1.2.3-rc.1+b", "1.2.3+b", "1.2", "1.2.3.4", "01.2.3", "1.2.3-01", "1.2.3-", "1.2.3+", "vv1.2.3", "V1.2.3", "1.2.3 ", "1.2.3-é",
 			"18446744073709551615.0.0", "18446744073709551616.0.0", "0.18446744073709551616.0", "v0.0.18446744073709551616", "0.0.0", "v0.0.0", "0.0.0-0", "0.0.0--", "2.0.0-beta.2", "2.0.0-beta.11", "v2.0.0-beta.11+x",
 			"1.0.0-" + strings.Repeat("a", 1017), "1.0.0-" + strings.Repeat("a", 1018), "1.0.0-" + strings.Repeat("a", 1019), "v1.0.0-" + strings.Repeat("1", 1016), "v1.0.0-" + strings.Repeat("1", 1017), "v1.0.0-" + strings.Repeat("1", 1018), "v1.0.0-" + strings.Repeat("a", 1017), "v1.0.0-" + strings.Repeat("a", 1018), "v1.0.0-" + strings.Repeat("a", 1019)}
 		for _, u := range uni[:minInt(len(uni), 60)] {
